@@ -13,11 +13,17 @@ look-ahead depth, every horizon:
   * `assumptions_exact`: the assumptions falsify exactly the derivable `__future_*` atoms beyond `h`;
   * `future_head`: a `__future_*` atom in an answer set lies within the horizon and comes with its target
     (re-exported from C09).
-The full semantic statement `C02_statement` (answer sets = temporal stable models for the future
-fragment) is kept visible below; it is proved for the core fragment (C01_core) and validated for the
-future fragment by the correspondence and the search, not yet by a theorem (partial).
+  * `C02_future` / `C02_traces` (TelProofs/FullEquiv.lean): the full semantic statement — at every horizon
+    `h` the answer sets of `G P h` are exactly the temporal stable models of `P` over traces of length `h+1`,
+    for every program of the rule fragment with future heads of any depth and look-ahead integrity
+    constraints / `not` / `not not` heads of any depth (`progFut`): a future head beyond the end is a
+    contradiction, a future body literal beyond the end is false, and nothing concluded at a shorter trace
+    survives (the theorem holds for *every* `h` of the incremental history).
+`C02_statement` (the same statement without the side condition that normal rules have no future atoms in
+their bodies and that `not`-heads carry `not`/`not not`) is kept visible; telingo rejects programs outside
+`progFut` (C11), so the side condition excludes no accepted program of the rule fragment.
 -/
-import TelProofs.CoreEquiv
+import TelProofs.FullEquiv
 
 set_option linter.unusedSimpArgs false
 set_option linter.unusedVariables false
@@ -25,7 +31,8 @@ set_option linter.unusedVariables false
 namespace TelProofs.C02
 open TelSpec TelModel TelModel.Generated TelProofs
 
-/-- the full statement for the future fragment (not proved here) -/
+/-- the statement without the syntactic side condition `progFut` (not proved in this form: programs
+    outside `progFut` are rejected by telingo before grounding) -/
 def C02_statement : Prop :=
   ∀ (P : TProg) (h : Nat), (∀ r ∈ P, ∀ l ∈ r.body, match l with | .tel _ _ => False | .del _ _ => False | _ => True) →
     (∀ r ∈ P, match r.head with | .tel _ => False | _ => True) →
@@ -159,7 +166,64 @@ theorem future_head (P : TProg) (h : Nat) (X : Interp) (hs : Stable (G P h) X) (
     (hx : X (.future a n k) = true) : k ≤ (h : Int) ∧ X (.user a k) = true :=
   C09.future_target P h X hs a n k hx
 
+/-- **C02** (semantic statement): for every program of the future fragment and every horizon, the stable
+    models of the accumulated ground program are exactly the embeddings of the temporal stable models;
+    the auxiliary `__future_*` atoms are exactly those derived by a rule whose body holds. -/
+theorem C02_future (P : TProg) (hf : progFut P = true) (h : Nat) :
+    (∀ X, Stable (G P h) X → TSM h P (traceOf X) ∧ X = embedF P h (traceOf X) (traceOf X)) ∧
+    (∀ T, TSM h P T → Stable (G P h) (embedF P h T T)) :=
+  full_stable_iff P hf h
+
+/-- projected to user atoms: the traces of the answer sets at horizon `h` are the temporal stable models -/
+theorem C02_traces (P : TProg) (hf : progFut P = true) (h : Nat) (T : Trace) :
+    (∃ X, Stable (G P h) X ∧ TraceEq h (traceOf X) T) ↔ (∃ T', TSM h P T' ∧ TraceEq h T' T) := by
+  constructor
+  · rintro ⟨X, hs, heq⟩
+    exact ⟨traceOf X, ((C02_future P hf h).1 X hs).1, heq⟩
+  · rintro ⟨T', hT, heq⟩
+    refine ⟨embedF P h T' T', (C02_future P hf h).2 T' hT, ?_⟩
+    intro k hk a
+    have : traceOf (embedF P h T' T') k a = T' k a := by
+      simp [traceOf, embedF, embed, hk]
+    rw [this]
+    exact heq k hk a
+
+/-- the specification side of the end-of-trace reading: a future head that points beyond the last state
+    is falsity, a future body atom beyond the last state is false -/
+theorem beyond_end_false (h : Nat) (W : Trace) (a : String) (k n : Nat) (hk : h < k + n) :
+    atPos h W a ((k : Int) + n) = false := by
+  unfold atPos
+  have : ¬ (0 ≤ (k : Int) + n ∧ (k : Int) + n ≤ (h : Int)) := by omega
+  simp [this]
+
+/-- core programs are in the future fragment: C01 is the special case without look-ahead -/
+theorem core_sub_fut (P : TProg) (hc : progCore P = true) : progFut P = true := by
+  simp only [progFut, progCore, List.all_eq_true] at hc ⊢
+  intro r hr
+  have := hc r hr
+  simp only [ruleCore, Bool.and_eq_true] at this
+  unfold ruleFut
+  cases hh : r.head with
+  | atom a n => exact this.2
+  | disj as => exact this.2
+  | choice as => exact this.2
+  | falsum =>
+    simp only [List.all_eq_true] at this ⊢
+    exact fun l hl => litCore_plain (this.2 l hl)
+  | nlit sg a n => rw [hh] at this; simp [headCore] at this
+  | tel f => rw [hh] at this; simp [headCore] at this
+
 /-! ### non-vacuity -/
+
+/-- future heads of depth 1 and 2, a look-ahead constraint of depth 2, `not p'` and `not not p''` heads, a final-part
+    constraint are all inside the fragment -/
+example : progFut [⟨.initial, .choice ["a", "b"], []⟩,
+                   ⟨.always, .atom "a" 1, [.atom .pos "b" 0, .atom .not "a" (-1)]⟩,
+                   ⟨.dynamic, .atom "b" 2, [.atom .pos "a" 0]⟩,
+                   ⟨.always, .falsum, [.atom .pos "a" 2, .atom .not "b" 1]⟩,
+                   ⟨.always, .nlit .not "b" 1, [.atom .pos "a" 0]⟩,
+                   ⟨.dynamic, .nlit .notnot "a" 2, [.atom .pos "b" (-1)]⟩,
+                   ⟨.final, .falsum, [.atom .not "a" 0]⟩] = true := by decide
 
 example : ((⟨.always, .temp 2⟩ : SPart) ∈ spartsOf [⟨.always, .falsum, [.atom .pos "a" 2, .atom .not "b" 1]⟩]) := by decide
 example : ((⟨.always, .temp 2⟩ : SPart), (1 : Int)) ∈ selected [⟨.always, .falsum, [.atom .pos "a" 2, .atom .not "b" 1]⟩] 2 := by decide
